@@ -18,7 +18,7 @@ RULE = (
     "a=b, a>b, near ties) x 4 centres.  Query alphabet: complete half-integer lattice of the enlarged bounding box (all four "
     "quadrants, shares x or y with vertices) plus points offset +-{1e-5,1e-3,0.3} from edge midpoints and vertices; each point "
     "decided by an exact crossing-number / rational quadratic-form oracle; points closer than 1e-6 L to the boundary skipped.  "
-    "Batch, reversed batch, single (3,) calls and (N,2) input (polygons in z=0) must agree.  non-trivial = decided point."
+    "Batch, reversed batch, single (3,) calls and (N,2) input (polygons in z=0) must agree.  Also: every 7th polygon case 2^27 sizes from the origin (dyadic shift); whole-number points as int64/int32 arrays and nested lists of ints must be answered like the same floats.  non-trivial = decided point."
 )
 ASSUMPTIONS = ["'uniform in an enlarged bounding box' replaced by the complete half-integer lattice plus edge/vertex offset points"]
 BOUNDS = {"quick": {"polygons": "n=3,4 all, every 4th 5-gon; starts 0 and 2", "curved": "81 ellipses x 2 centres, 9 circles x 4"}, "thorough": {"polygons": "n<=5 all, all starts", "curved": "81 x 4"}}
